@@ -104,42 +104,41 @@ def driver(rep):
                     for n, hv in il.head.items():
                         if isinstance(n, str):
                             last_syms.add("after-%s:%s" % (il.tag, n))
-                parts = []
-                if isinstance(nxt, Lin):
-                    parts = list(nxt.terms.items()) + ([("const", nxt.const)] if nxt.const else [])
-                elif isinstance(nxt, Op) and nxt.op == "add":
-                    for a in nxt.args:
-                        if isinstance(a, Lin):
-                            parts += list(a.terms.items()) + ([("const", a.const)] if a.const else [])
-                        else:
-                            parts.append((a, 1))
-                offs = [a for a, c in parts if isinstance(a, Op) and a.op == "attr" and a.args[1] == "offset" and c == 1]
-                width_ok = False
-                X = offs[0].args[0] if len(offs) == 1 else None
-                for a, c in parts:
-                    if a == "const" and w[0] == w[1] and c == w[0]:
-                        width_ok = True
-                    if isinstance(a, Guard) and c == 1:
-                        cd = a.cond
-                        if isinstance(cd, Op) and cd.op == "Lt" and isinstance(cd.args[0], Op) and cd.args[0].op == "attr" and cd.args[0].args[1] == "opcode" \
-                                and repr(cd.args[0].args[0]) == repr(X) and cd.args[1] == have and (a.a, a.b) == w:
-                            width_ok = True
-                good = X is not None and repr(X) in last_syms and width_ok and len(parts) == 2
-                if not good and isinstance(nxt, Guard):
-                    # the same sum with the width choice distributed over it
-                    cd = nxt.cond
+                # decided by evaluating the extracted next-offset term (any way of writing the width choice): its atoms must be fields of the *last*
+                # instruction of the group, and for offset 1000 and opcodes around HAVE_ARGUMENT it must be 1000 + that version's width
+                from ..sve import eval_term
 
-                    def off_plus(t, k):
-                        if isinstance(t, Lin) and t.const == k and len(t.terms) == 1:
-                            (a, c), = t.terms.items()
-                            if c == 1 and isinstance(a, Op) and a.op == "attr" and a.args[1] == "offset":
-                                return a.args[0]
-                        return None
-                    Xa, Xb = off_plus(nxt.a, w[0]), off_plus(nxt.b, w[1])
-                    good = (Xa is not None and Xb is not None and repr(Xa) == repr(Xb) and repr(Xa) in last_syms and isinstance(cd, Op) and cd.op == "Lt"
-                            and isinstance(cd.args[0], Op) and cd.args[0].op == "attr" and cd.args[0].args[1] == "opcode" and repr(cd.args[0].args[0]) == repr(Xa)
-                            and cd.args[1] == have)
+                def attr_atoms(t, acc):
+                    if isinstance(t, Op) and t.op == "attr":
+                        acc.append(t)
+                    elif isinstance(t, Lin):
+                        for a_ in t.terms:
+                            attr_atoms(a_, acc)
+                    elif isinstance(t, Op):
+                        for a_ in t.args:
+                            attr_atoms(a_, acc)
+                    elif isinstance(t, Guard):
+                        attr_atoms(t.cond, acc)
+                        attr_atoms(t.a, acc)
+                        attr_atoms(t.b, acc)
+                    return acc
+                ats = attr_atoms(nxt, [])
+                owners = {repr(t.args[0]) for t in ats}
                 why = show(nxt)
+                good = bool(ats) and len(owners) == 1 and owners <= last_syms and {t.args[1] for t in ats} <= {"offset", "opcode"}
+                if good:
+                    X = ats[0].args[0]
+                    try:
+                        for opv in (0, have - 1, have, 255):
+                            got_n = eval_term(nxt, {repr(Op("attr", X, "offset")): 1000, repr(Op("attr", X, "opcode")): opv})
+                            if got_n != 1000 + (w[0] if opv < have else w[1]):
+                                good = False
+                                why = "%s: opcode %d at offset 1000 -> %r" % (show(nxt)[:200], opv, got_n)
+                                break
+                    except Exception as ex:
+                        good, why = False, "%s: not evaluable (%s)" % (show(nxt)[:200], ex)
+                elif ats:
+                    why = "%s: depends on %s" % (show(nxt)[:200], sorted(owners))
             rep.ob("R2", "xdis.bytecode.get_instructions_bytes", "driver-next-offset@%s" % v, good,
                    expected="offset(last instruction of the logical group) + width(its opcode) %s" % (w,), derived=why[:300],
                    msg="the driver does not continue right after the last instruction of the logical group")
